@@ -14,7 +14,7 @@ import ast
 from typing import List
 
 from ..index import Repo, AnchorError
-from ..cfg import CFG, path_of
+from ..cfg import CFG, ReachingDefs, path_of
 from ..astutil import unparse, call_name, func_params
 from .common import site
 
@@ -42,6 +42,12 @@ def run(chk, repo: Repo):
     chk.rule("C07-R3", "the raw matrix is handed out as the par->par matrix only under the identity-geometry guard", floor=1)
     chk.rule("C07-R4", "par->par bound methods are not stored into raw (fun->fun) operator slots", floor=1)
     chk.rule("C07-R5", "get_matrix: column i is forward(e_i), materialised in the same iteration before the buffer is reset", floor=1)
+    chk.rule("C07-R6", "shipped 2-D convolution pair: the adjoint-by-flipped-kernel shortcut is used only where padding commutes with transposition "
+                       "(zero and periodic extension) and mirrors the even-size crop", floor=3)
+    _r6(chk, repo)
+    chk.rule("C07-R7", "forward/adjoint closures of models and test problems do not capture an iteration variable late", floor=3)
+    from ..latebind import latebind_rule
+    latebind_rule(chk, repo, "C07-R7", ("cuqi/model/", "cuqi/testproblem/", "cuqi/operator/"))
     lm = repo.cls(LM)
     adj = repo.method(lm, "adjoint")[1]
     # R1
@@ -147,3 +153,59 @@ def run(chk, repo: Repo):
             problems.append("the result of forward(e) is kept by reference (appended to a container) while the unit-vector buffer e is "
                             "reused and reset: a forward operator returning (a view of) its input leaves every stored column aliased to e")
     chk.add("C07-R5", f"{lm.qual}.get_matrix/columns", not problems, site(repo, lp), "M[:, i] = forward(e_i), copied before e is reset", "; ".join(problems), lp)
+
+
+def _r6(chk, repo):
+    """Deconvolution2D: forward = pad(mode) + 'valid' convolution (+ crop of the first row/column for even PSF sizes);
+    backward = the same routine with the flipped PSF. That is the transpose only if (i) the extension is zero or periodic
+    (the adjoint of a symmetric/edge/reflect extension folds the border back, it does not pad) and (ii) the even-size crop
+    is mirrored (last instead of first row/column)."""
+    TP = "cuqi/testproblem/_testproblem.py"
+    fwd = repo.func(f"{TP}:_proj_forward_2D")
+    bwd = repo.func(f"{TP}:_proj_backward_2D")
+    tb = _norm(bwd)
+    P = func_params(bwd)[1]
+    flipped = f"{P}=np.flipud(np.fliplr({P}))" in tb or f"{P}=np.fliplr(np.flipud({P}))" in tb or f"{P}={P}[::-1,::-1]" in tb
+    chk.add("C07-R6", f"{TP}:_proj_backward_2D/flip", flipped, site(repo, bwd), "adjoint convolves with the PSF flipped in both axes",
+            "the backward map does not use the PSF flipped in both axes", bwd)
+    delegates = f"return_proj_forward_2D({func_params(bwd)[0]},{P},{func_params(bwd)[2]})" in tb
+    tf = _norm(fwd)
+    pads = "np.pad(" in tf and "mode='valid'" in tf
+    if not (delegates and pads):
+        raise AnchorError("2-D convolution pair: structure (pad + valid convolution, backward delegating to forward) not recognised")
+    # the forward map is ONE algorithm for every boundary mode: each return yields the padded 'valid' convolution (possibly cropped)
+    gf = CFG(fwd)
+    rdf = ReachingDefs(gf)
+    for r in gf.returns():
+        nm = path_of(r.ast.value)
+        defs = [gf.nodes[i] for i in rdf.reaching(r, nm)] if nm else []
+        srcs = {_norm(d.ast.value) for d in defs if isinstance(d.ast, ast.Assign)}
+        if not nm or not srcs or any(not (s.startswith("fftconvolve(") and s.endswith("mode='valid')")) and s != f"{nm}[1:,1:]" for s in srcs) \
+                or any(g_ for g_ in gf.guards_of(r)):
+            raise AnchorError(f"_proj_forward_2D: `{unparse(r.ast)}` is not the padded 'valid' convolution on every path (a boundary-mode specific "
+                              f"algorithm cannot be compared with the flipped-kernel adjoint by this rule)")
+    # boundary modes that can reach the pair
+    ci = repo.cls(f"{TP}:Deconvolution2D")
+    init = repo.method(ci, "__init__")[1]
+    modes = set()
+    for n in ast.walk(init):
+        if isinstance(n, ast.Assign) and path_of(n.targets[0]) == "BC" and isinstance(n.value, ast.Constant):
+            modes.add(n.value.value)
+    if not modes:
+        raise AnchorError("Deconvolution2D: boundary-condition translation table not found")
+    bad = sorted(m for m in modes if m not in ("constant", "wrap"))
+    chk.add("C07-R6", f"{TP}:Deconvolution2D/adjoint-padding", not bad, site(repo, bwd),
+            "padding modes reaching the flipped-kernel adjoint are zero/periodic only",
+            f"the adjoint re-pads its input with the forward's np.pad mode; for modes {bad} (symmetric/edge/reflect extension) the transpose of "
+            f"'pad then convolve' folds the border back instead of padding, so adjoint != forward^T (exact only for {sorted(modes - set(bad))}, "
+            f"and by symmetry for symmetric PSFs with the symmetric extension)", bwd)
+    crop = "Ax=Ax[1:,1:]" in tf
+    mirrored = "[:-1,:-1]" in tb
+    chk.add("C07-R6", f"{TP}:_proj_backward_2D/even-size-crop", (not crop) or mirrored, site(repo, fwd),
+            "even PSF sizes: the adjoint crops the opposite border",
+            "for even PSF sizes the forward drops the FIRST row/column of the 'valid' convolution; the backward map reuses exactly this crop with the "
+            "flipped PSF, whereas the transpose requires dropping the LAST row/column: adjoint != forward^T for every even PSF size", fwd)
+    model = [n for n in ast.walk(init) if isinstance(n, ast.Assign) and path_of(n.targets[0]) == "model"]
+    ok = len(model) == 1 and _norm(model[0].value).startswith("cuqi.model.LinearModel(lambdax:_proj_forward_2D(x,P,BC),lambdax:_proj_backward_2D(x,P,BC),range_geometry,domain_geometry)")
+    chk.add("C07-R6", f"{TP}:Deconvolution2D/model", ok, site(repo, init), "forward and adjoint share the same PSF and boundary mode",
+            "forward and adjoint of the 2-D deconvolution model are not built on the same (PSF, boundary mode)", init)
